@@ -58,6 +58,9 @@ type e4Inject struct {
 	Conn int  `json:"conn"`
 	QoS  int  `json:"qos"`
 	Dup  bool `json:"dup,omitempty"` // a re-delivery by the broker (QoS>0)
+	// ReuseID (QoS>0, connection >= 2): the message carries the packet identifier that the broker used for the last
+	// QoS1 message (the marker) of the previous connection - brokers re-use identifiers of completed exchanges
+	ReuseID bool `json:"reuseID,omitempty"`
 }
 
 type e4Case struct {
@@ -184,6 +187,9 @@ type e4HookAction struct {
 }
 
 type e4Env struct {
+	// callbacks may still run after the case returned: they append here (under mu), the result gets a copy
+	handled  []e4Handled
+	onErrors []e4OnErr
 	pushed  *int64 // reconnect loop passed "tasks pushed" this many times
 	hookMu  sync.Mutex
 	pending []*e4HookAction // actions waiting for the next passage of the loop through their site
@@ -215,7 +221,7 @@ func (e *e4Env) handler(n int) Handler {
 		pk := refPacket{Type: rtPublish, Topic: m.Topic, Payload: append([]byte{}, m.Payload...), QoS: int(m.QoS), Retain: m.Retain, Dup: m.Dup, ID: int(m.ID)}
 		seq := e.log.add(0, "H", &pk, fmt.Sprintf("handler=%d", n))
 		e.mu.Lock()
-		e.res.Handled = append(e.res.Handled, e4Handled{seq, n, pk})
+		e.handled = append(e.handled, e4Handled{seq, n, pk})
 		e.mu.Unlock()
 	})
 }
@@ -379,8 +385,8 @@ func e4Run(c e4Case) *e4Result {
 			r.Log = e.log.snapshot()
 			e.mu.Lock()
 			r.Reqs = append([]e4Req{}, e.res.Reqs...)
-			r.OnErrors = append([]e4OnErr{}, e.res.OnErrors...)
-			r.Handled = append([]e4Handled{}, e.res.Handled...)
+			r.OnErrors = append([]e4OnErr{}, e.onErrors...)
+			r.Handled = append([]e4Handled{}, e.handled...)
 			e.mu.Unlock()
 			b := e.b
 			b.mu.Lock()
@@ -413,12 +419,17 @@ func e4RunBody(c e4Case, started chan<- *e4Env) (res *e4Result) {
 	e := &e4Env{c: c, log: log, b: b, d: d, res: res}
 	started <- e
 	perConn := map[int]int{}
+	reused := map[int]bool{}
 	for _, in := range c.Inject {
 		perConn[in.Conn]++
 		pk := refPacket{Type: rtPublish, Topic: "in/t", QoS: in.QoS, Payload: []byte(fmt.Sprintf("in%d.%d|", in.Conn, perConn[in.Conn]))}
 		if in.QoS > 0 {
 			pk.ID = 1000 + 10*in.Conn + perConn[in.Conn]
 			pk.Dup = in.Dup
+			if in.ReuseID && in.Conn >= 2 && !reused[in.Conn] {
+				reused[in.Conn] = true
+				pk.ID = vSyncIDBase + in.Conn - 1
+			}
 		}
 		b.inject[in.Conn] = append(b.inject[in.Conn], pk)
 		if in.QoS == 2 {
@@ -432,7 +443,7 @@ func e4RunBody(c e4Case, started chan<- *e4Env) (res *e4Result) {
 	rc.OnError = func(err error) {
 		seq := log.add(0, "ONERROR", nil, err.Error())
 		e.mu.Lock()
-		res.OnErrors = append(res.OnErrors, e4OnErr{seq, err})
+		e.onErrors = append(e.onErrors, e4OnErr{seq, err})
 		e.mu.Unlock()
 		if c.Cfg.OnErrorSleepUs > 0 {
 			time.Sleep(time.Duration(c.Cfg.OnErrorSleepUs) * time.Microsecond)
@@ -504,6 +515,10 @@ func e4RunBody(c e4Case, started chan<- *e4Env) (res *e4Result) {
 	defer func() {
 		// teardown: stop the loop whatever state the case ended in (the trace ends here)
 		res.Log = log.snapshot()
+		e.mu.Lock()
+		res.Handled = append([]e4Handled{}, e.handled...)
+		res.OnErrors = append([]e4OnErr{}, e.onErrors...)
+		e.mu.Unlock()
 		d.release()
 		if connStarted && !disconnected {
 			dctx, dcancel := context.WithTimeout(context.Background(), 5*time.Second)
@@ -708,6 +723,48 @@ func e4RunBody(c e4Case, started chan<- *e4Env) (res *e4Result) {
 			log.add(0, "HANDLE-START", nil, fmt.Sprintf("handler=%d", s.Extra))
 			cli.Handle(e.handler(s.Extra))
 			log.add(0, "HANDLE", nil, fmt.Sprintf("handler=%d", s.Extra))
+		case "handleStalled":
+			// Handle() is held up at the point where it needs the lock of the BaseClient it was given - as a goroutine
+			// that lost the CPU there would be - while the reconnect loop installs and connects the next client.
+			// (The runner is in-package: the old connection is ended first, with the dialler held so that the loop
+			// cannot go on yet; then the runner takes the finished client's read lock itself, starts Handle, lets the
+			// dialler go and keeps the lock for s.ID microseconds.)
+			bc := d.currentConn()
+			atomic.StoreInt32(&e.curH, int32(s.Extra))
+			plain := bc == nil || !connected || held || disconnected
+			if !plain {
+				d.hold()
+				b.mu.Lock()
+				bc.kill()
+				b.mu.Unlock()
+				select {
+				case <-bc.cli.Done():
+				case <-time.After(10 * time.Second):
+					plain = true
+					d.release()
+				}
+			}
+			if plain {
+				log.add(0, "HANDLE-START", nil, fmt.Sprintf("handler=%d", s.Extra))
+				cli.Handle(e.handler(s.Extra))
+				log.add(0, "HANDLE", nil, fmt.Sprintf("handler=%d", s.Extra))
+				continue
+			}
+			bc.cli.mu.RLock()
+			hdone := make(chan struct{})
+			log.add(0, "HANDLE-START", nil, fmt.Sprintf("handler=%d stalled", s.Extra))
+			go func() {
+				defer close(hdone)
+				cli.Handle(e.handler(s.Extra))
+				log.add(0, "HANDLE", nil, fmt.Sprintf("handler=%d", s.Extra))
+			}()
+			for i := 0; i < 50; i++ {
+				runtime.Gosched()
+			}
+			d.release()
+			time.Sleep(time.Duration(s.ID) * time.Microsecond)
+			bc.cli.mu.RUnlock()
+			<-hdone
 		case "sleep":
 			time.Sleep(time.Duration(s.Extra) * time.Microsecond)
 		case "sleepBase":
@@ -987,6 +1044,8 @@ func e4GenFaults(rt *rapid.T, o e4GenOpts) []e4Fault {
 			f.After = rapid.Bool().Draw(rt, "after")
 		case "refuse":
 			f.Code = rapid.IntRange(1, 5).Draw(rt, "code")
+		case "dialErr":
+			f.Code = rapid.SampledFrom([]int{0, 0, 1, 2}).Draw(rt, "dialErrKind") // 1, 2: a context error in the chain
 		case "garbage", "goSilent", "closeAfter":
 			f.Pkt = rapid.IntRange(1, 5).Draw(rt, "pkt")
 		}
